@@ -42,10 +42,19 @@ class _T:
         self.join_timed = False
         self.steps = 0
         self.total_steps = 0
+        self.killed = False
 
 
 class Deadlock(BaseException):
     pass
+
+
+def _reaped():
+    """The exception that unwinds an abandoned thread when its schedule is over: pynguin's own
+    thread-kill signal (every handler of the executor lets it propagate)."""
+    from pynguin.utils.exceptions import TracingAbortedException
+
+    return TracingAbortedException("schedule over: abandoned thread reaped by the harness")
 
 
 class Scheduler:
@@ -60,6 +69,7 @@ class Scheduler:
         self.deadlock = False
         self.timeouts_fired = 0
         self.preemptions = 0
+        self.reaping = False
         main = _T(0, _real_threading.current_thread(), main=True)
         self.order.append(main)
         self.by_ident[_real_threading.get_ident()] = main
@@ -97,6 +107,8 @@ class Scheduler:
         nxt.sem.release()
         if wait:
             me.sem.acquire()
+            if me.killed:
+                raise _reaped()
 
     def _pick(self, me: _T, label: str, self_first: bool, self_ok: bool):
         others = [t for t in self.order if t is not me and self.enabled(t)]
@@ -111,6 +123,8 @@ class Scheduler:
     # ------------------------------------------------------------ points
     def point(self, label: str):
         me = self.me()
+        if me is not None and me.killed:
+            raise _reaped()   # keeps unwinding even if the SUT swallowed the first one
         if me is None or me is not self.cur:
             return  # unregistered thread (not ours) - ignore
         if not me.main:
@@ -173,6 +187,8 @@ class Scheduler:
 
     def exit(self, me: _T):
         me.done = True
+        if self.reaping or me.killed:
+            return
         cands = [t for t in self.order if t is not me and self.enabled(t)]
         # default: real work continues; waking a thread whose timed join would thereby
         # "time out" is a deviation
@@ -208,6 +224,18 @@ class Scheduler:
             me.status = "ready"
         return [t.idx for t in self.order if not t.done and not t.main]
 
+    def reap(self):
+        """After the schedule: unwind every thread that is still parked (abandoned threads that hit their
+        horizon, threads never scheduled) so that explored schedules do not accumulate OS threads."""
+        self.reaping = True
+        parked = [t for t in self.order if not t.main and not t.done]
+        for t in parked:
+            t.killed = True
+            t.sem.release()
+        for t in parked:
+            _real_threading.Thread.join(t.thread, 10.0)
+        return [t.idx for t in parked if _real_threading.Thread.is_alive(t.thread)]
+
 
 class CoopThread(_real_threading.Thread):
     """Thread whose start/join/run are mediated by the active Scheduler."""
@@ -231,10 +259,16 @@ class CoopThread(_real_threading.Thread):
             return super().run()
         t.sem.acquire()          # wait to be scheduled for the first time
         s.by_ident[_real_threading.get_ident()] = t
+        if t.killed:             # never scheduled before its schedule ended
+            t.done = True
+            return
         try:
             super().run()
         except Deadlock:
             pass
+        except BaseException:    # noqa: BLE001
+            if not t.killed:
+                raise
         finally:
             s.exit(t)
 
@@ -325,4 +359,7 @@ def scheduled(chooser, horizon=5):
         try:
             s.leaked = s.drain()
         finally:
-            ACTIVE = None
+            try:
+                s.unreaped = s.reap()
+            finally:
+                ACTIVE = None
